@@ -176,16 +176,16 @@ pub fn diff_fields(a: &VerifMac, b: &VerifMac) -> String {
 
 // ------------------------------------------------------------------ nb twin
 
-pub struct NbTwin {
-    a: NbCore<14, 0>,
-    b: NbCore<14, 0>,
+pub struct NbTwin<const D: usize = 4> {
+    a: NbCore<14, 0, D>,
+    b: NbCore<14, 0, D>,
     injected: usize,
     bound: usize,
     diverged: bool,
     outcome: String,
 }
 
-impl NbTwin {
+impl<const D: usize> NbTwin<D> {
     pub fn new(cfg: &DevCfg, bound: usize) -> Self {
         NbTwin { a: NbCore::new(cfg), b: NbCore::new(cfg), injected: 0, bound, diverged: false, outcome: String::new() }
     }
@@ -213,7 +213,7 @@ impl NbTwin {
 
 /// Runs one transaction on a core as explicit micro steps, optionally inserting an extra
 /// reception while window `at` is open. Returns (micros, index of the injected micro).
-fn run_nb(core: &mut NbCore<14, 0>, base: &Ev, inject: Option<&Inject>) -> (Vec<Micro>, Option<usize>) {
+fn run_nb<const D: usize>(core: &mut NbCore<14, 0, D>, base: &Ev, inject: Option<&Inject>) -> (Vec<Micro>, Option<usize>) {
     let (start, rx1, rx2) = match base {
         Ev::Cycle { confirmed, port, len, rx1, rx2 } => (Ev::Send { confirmed: *confirmed, port: *port, len: *len }, rx1.clone(), rx2.clone()),
         Ev::JoinCycle { rx1, rx2 } => (Ev::Join, rx1.clone(), rx2.clone()),
@@ -266,7 +266,7 @@ fn obs(m: &Micro) -> (Resp, Vec<RadioOp>, Vec<(u8, Vec<u8>)>, VerifMac, VerifNbS
     (m.resp.clone(), m.ops.clone(), m.downlinks.clone(), m.after, m.st_after)
 }
 
-impl System for NbTwin {
+impl<const D: usize> System for NbTwin<D> {
     type Ev = TwinEv;
     type Key = (VerifMac, VerifNbState, VerifMac, VerifNbState, usize, Option<u32>);
 
@@ -404,7 +404,8 @@ impl System for NbTwin {
 
     fn alive(&self) -> bool {
         // once the twins have re-converged completely their futures are identical: prune
-        let converged = self.injected >= self.bound && self.a.snap() == self.b.snap() && self.a.st() == self.b.st();
+        // (not when downlinks are left in the queue: the queue is not part of the snapshot)
+        let converged = !self.a.cfg.hold_downlinks && self.injected >= self.bound && self.a.snap() == self.b.snap() && self.a.st() == self.b.st();
         self.a.dead.is_none() && self.b.dead.is_none() && !self.diverged && !converged
     }
 
@@ -654,7 +655,7 @@ fn replay_case(c: &Value) -> Vec<String> {
     let rc: RunCfg = serde_json::from_value(c["cfg"].clone()).expect("cfg");
     if rc.front == "nb" {
         let hist: Vec<TwinEv> = serde_json::from_value(c["history"].clone()).expect("history");
-        explore::replay(&|| NbTwin::new(&rc.dev, rc.bound), &hist)
+        if rc.dev.hold_downlinks { explore::replay(&|| NbTwin::<1>::new(&rc.dev, rc.bound), &hist) } else { explore::replay(&|| NbTwin::<4>::new(&rc.dev, rc.bound), &hist) }
     } else {
         let hist: Vec<ATwinEv> = serde_json::from_value(c["history"].clone()).expect("history");
         explore::replay(&|| ATwin::new(&rc.dev, rc.class_c, rc.bound), &hist)
@@ -677,7 +678,13 @@ pub fn run(tier: Tier, replay: Option<&str>) {
             runs.push(RunCfg { front: "nb".into(), class_c: false, bound: 1, dev: d.clone() });
             runs.push(RunCfg { front: "async".into(), class_c: false, bound: 1, dev: d.clone() });
             if !otaa {
-                runs.push(RunCfg { front: "async".into(), class_c: true, bound: 1, dev: d });
+                runs.push(RunCfg { front: "async".into(), class_c: true, bound: 1, dev: d.clone() });
+                if *r == "EU868" {
+                    // an application that leaves downlinks in the queue across the next uplink's windows
+                    let mut h = d;
+                    h.hold_downlinks = true;
+                    runs.push(RunCfg { front: "nb".into(), class_c: false, bound: 1, dev: h });
+                }
             }
         }
     }
@@ -688,7 +695,12 @@ pub fn run(tier: Tier, replay: Option<&str>) {
     for rc in &runs {
         let cj = serde_json::to_value(rc).unwrap();
         let st = if rc.front == "nb" {
-            explore::bfs(&ctx, &cj, &|| NbTwin::new(&rc.dev, rc.bound), depth, 1_500_000)
+            if rc.dev.hold_downlinks {
+                // (with the default downlink queue of one entry)
+                explore::bfs(&ctx, &cj, &|| NbTwin::<1>::new(&rc.dev, rc.bound), depth, 1_500_000)
+            } else {
+                explore::bfs(&ctx, &cj, &|| NbTwin::<4>::new(&rc.dev, rc.bound), depth, 1_500_000)
+            }
         } else {
             explore::bfs(&ctx, &cj, &|| ATwin::new(&rc.dev, rc.class_c, rc.bound), depth, 1_500_000)
         };
